@@ -9,6 +9,7 @@ import (
 	"math/big"
 	"runtime"
 	"testing"
+	"time"
 
 	"github.com/RoaringBitmap/roaring/v2"
 	bsi32 "github.com/RoaringBitmap/roaring/v2/BitSliceIndexing"
@@ -733,5 +734,35 @@ func TestD36_ToDenseOn32BitTargets(t *testing.T) {
 	bm.RunOptimize()
 	if !roaring.FromDense(bm.ToDense(), true).Equals(bm) {
 		t.Fatal("dense round trip differs")
+	}
+}
+
+// #37 C19: b.Add(b) doubles every value and returns.
+func TestD37_BSIAddToItself(t *testing.T) {
+	b := roaring64.NewDefaultBSI()
+	b.SetValue(1, 3)
+	b.SetValue(2, 5)
+	done := make(chan struct{})
+	go func() { b.Add(b); close(done) }()
+	select {
+	case <-done:
+	case <-time.After(3 * time.Second):
+		t.Fatal("roaring64: b.Add(b) does not return")
+	}
+	if v, _ := b.GetValue(1); v != 6 {
+		t.Errorf("roaring64: column 1 = %d, want 6", v)
+	}
+	c := bsi32.NewDefaultBSI()
+	c.SetValue(1, 3)
+	c.SetValue(2, 5)
+	done2 := make(chan struct{})
+	go func() { c.Add(c); close(done2) }()
+	select {
+	case <-done2:
+	case <-time.After(3 * time.Second):
+		t.Fatal("BitSliceIndexing: b.Add(b) does not return")
+	}
+	if v, _ := c.GetValue(2); v != 10 {
+		t.Errorf("BitSliceIndexing: column 2 = %d, want 10", v)
 	}
 }
